@@ -1241,5 +1241,676 @@ theorem copy_apply_consistent (s : Store K F) (hw : WF s) (finfo : FieldInfo →
 
 end apply
 
+/-! ### the storage logic never looks into a frame (naturality in the frame type) -/
+
+section natural
+variable {K F G : Type}
+
+theorem mapFrames_startWriting (g : F → G) (s : Store K F) (fi : FieldInfo) :
+    startWriting (s.mapFrames g) fi = ((startWriting s fi).1.mapFrames g, (startWriting s fi).2) := by
+  unfold startWriting baseStart
+  cases hm : s.mode <;> cases hd : s.dataShape <;>
+    simp [Store.mapFrames, clear, hm, hd] <;> split_ifs <;> simp [hm, hd]
+
+theorem mapFrames_clear (g : F → G) (s : Store K F) (b : Bool) :
+    clear (s.mapFrames g) b = (clear s b).mapFrames g := by
+  simp [Store.mapFrames, clear]
+
+theorem mapFrames_getField (g : F → G) (s : Store K F) (i : Int) :
+    getField (s.mapFrames g) i = (getField s i).map (fun r => (r.1, g r.2)) := by
+  unfold getField
+  simp only [Store.mapFrames]
+  cases normIndex s.times.length i with
+  | error e => rfl
+  | ok j =>
+    simp only
+    cases s.template with
+    | none => rfl
+    | some fi =>
+      simp only [List.getElem?_map]
+      cases s.frames[j]? <;> rfl
+
+theorem mapFrames_construct (g : F → G) (times : List K) (frames : List F)
+    (tm : Option FieldInfo) (m : Mode) :
+    construct times (frames.map g) tm m = (construct times frames tm m).map (Store.mapFrames g) := by
+  unfold construct
+  simp only [List.length_map]
+  split_ifs <;> rfl
+
+section
+variable [LT K] [DecidableLT K]
+
+theorem mapFrames_extractTimeRange (g : F → G) (s : Store K F) (r : TRange K) :
+    extractTimeRange (s.mapFrames g) r = (extractTimeRange s r).map (Store.mapFrames g) := by
+  unfold extractTimeRange
+  simp only [Store.mapFrames]
+  split <;> try rfl
+  rw [← List.map_drop, ← List.map_take, mapFrames_construct]
+
+end
+
+section
+variable [Add K] [NatCast K]
+
+theorem mapFrames_append (g : F → G) (s : Store K F) (fi : FieldInfo) (t : Option K) (f : F) :
+    append (s.mapFrames g) fi t (g f) = ((append s fi t f).1.mapFrames g, (append s fi t f).2) := by
+  unfold append appendData
+  cases hg : s.grid <;> cases hd : s.dataShape <;> cases t <;>
+    simp [Store.mapFrames, hg, hd] <;> split_ifs <;> simp [hg, hd]
+
+theorem mapFrames_outOrNew (g : F → G) (out : Option (Store K F)) (fi : FieldInfo) :
+    outOrNew (out.map (Store.mapFrames g)) fi = (outOrNew out fi).mapFrames g := by
+  cases out <;> simp [outOrNew, Store.mapFrames]
+
+theorem mapFrames_applyLoop (g : F → G) (s : Store K F) (finfo : FieldInfo → FieldInfo) :
+    ∀ (todo : List (Nat × F)) (out : Option (Store K F)) (w : Bool),
+      applyLoop (s.mapFrames g) finfo (todo.map (fun p => (p.1, g p.2)))
+          (out.map (Store.mapFrames g)) w =
+        ((applyLoop s finfo todo out w).1.map (Store.mapFrames g), (applyLoop s finfo todo out w).2) := by
+  intro todo
+  induction todo with
+  | nil => intro out w; simp [applyLoop]
+  | cons p todo ih =>
+    intro out w
+    obtain ⟨i, nf⟩ := p
+    simp only [List.map_cons]
+    unfold applyLoop
+    rw [mapFrames_getField]
+    have ht : (s.mapFrames g).times = s.times := rfl
+    rw [ht]
+    cases hgf : getField s (i : Int) with
+    | error e => simp [Except.map]
+    | ok r =>
+      obtain ⟨fi, f0⟩ := r
+      simp only [Except.map]
+      cases hti : s.times[i]? with
+      | none => simp
+      | some t =>
+        simp only
+        rw [mapFrames_outOrNew]
+        cases w with
+        | true =>
+          simp only [if_true]
+          rw [mapFrames_append]
+          cases hap : append (outOrNew out (finfo fi)) (finfo fi) (some t) nf with
+          | mk o3 e3 =>
+            cases e3 with
+            | some e => simp
+            | none =>
+              simp only
+              have := ih (some o3) true
+              simpa using this
+        | false =>
+          simp only [Bool.false_eq_true, if_false]
+          rw [mapFrames_startWriting]
+          cases hsw : startWriting (outOrNew out (finfo fi)) (finfo fi) with
+          | mk o2 e2 =>
+            cases e2 with
+            | some e => simp
+            | none =>
+              simp only
+              rw [mapFrames_append]
+              cases hap : append o2 (finfo fi) (some t) nf with
+              | mk o3 e3 =>
+                cases e3 with
+                | some e => simp
+                | none =>
+                  simp only
+                  have := ih (some o3) true
+                  simpa using this
+
+theorem mapFrames_applyTo (g : F → G) (s : Store K F) (finfo : FieldInfo → FieldInfo)
+    (newFrames : List F) (out : Option (Store K F)) :
+    applyTo (s.mapFrames g) finfo (newFrames.map g) (out.map (Store.mapFrames g)) =
+      ((applyTo s finfo newFrames out).1.map (Store.mapFrames g), (applyTo s finfo newFrames out).2) := by
+  unfold applyTo
+  have hz : (List.range (s.mapFrames g).times.length).zip (newFrames.map g) =
+      ((List.range s.times.length).zip newFrames).map (fun p => (p.1, g p.2)) := by
+    simp only [Store.mapFrames]
+    rw [List.zip_map_right]
+    rfl
+  rw [hz, mapFrames_applyLoop]
+  cases h : applyLoop s finfo ((List.range s.times.length).zip newFrames) out false with
+  | mk o e =>
+    cases e with
+    | some err => rfl
+    | none => cases o <;> simp [Store.mapFrames, Store.new]
+
+/-! ### which frames a storage can hold after an operation -/
+
+theorem frames_startWriting (s : Store K F) (fi : FieldInfo) :
+    ∀ id ∈ (startWriting s fi).1.frames, id ∈ s.frames := by
+  intro id h
+  rcases startWriting_cases s fi with ⟨_, _, _, hf, _⟩ | ⟨_, _, hf, _⟩
+  · rw [hf] at h; split_ifs at h
+    · exact h
+    · simp at h
+  · rw [hf] at h; exact h
+
+theorem frames_append (s : Store K F) (fi : FieldInfo) (t : Option K) (f : F) :
+    ∀ id ∈ (append s fi t f).1.frames, id ∈ s.frames ∨ id = f := by
+  intro id h
+  rcases append_cases s fi t f with ⟨_, _, hf, _⟩ | ⟨_, _, hf, _⟩
+  · rw [hf] at h; simpa using h
+  · rw [hf] at h; exact Or.inl h
+
+theorem frames_applyLoop (s : Store K F) (finfo : FieldInfo → FieldInfo) :
+    ∀ (todo : List (Nat × F)) (out : Option (Store K F)) (w : Bool) (o' : Store K F),
+      (applyLoop s finfo todo out w).1 = some o' →
+      ∀ id ∈ o'.frames, (∃ o, out = some o ∧ id ∈ o.frames) ∨ id ∈ todo.map Prod.snd := by
+  intro todo
+  induction todo with
+  | nil =>
+    intro out w o' h id hid
+    simp only [applyLoop] at h
+    exact Or.inl ⟨o', h, hid⟩
+  | cons p todo ih =>
+    intro out w o' h id hid
+    obtain ⟨i, nf⟩ := p
+    unfold applyLoop at h
+    cases hgf : getField s (i : Int) with
+    | error e =>
+      rw [hgf] at h; simp only at h
+      exact Or.inl ⟨o', h, hid⟩
+    | ok r =>
+      obtain ⟨fi, f0⟩ := r
+      rw [hgf] at h
+      cases hti : s.times[i]? with
+      | none => rw [hti] at h; simp only at h; exact Or.inl ⟨o', h, hid⟩
+      | some t =>
+        rw [hti] at h
+        simp only at h
+        have hnew : ∀ id ∈ (outOrNew out (finfo fi)).frames, ∃ o, out = some o ∧ id ∈ o.frames := by
+          intro id hid
+          cases out with
+          | none => simp [outOrNew] at hid
+          | some o => exact ⟨o, rfl, by simpa [outOrNew] using hid⟩
+        -- state after the optional `start_writing`
+        have hstart : ∀ (o2 : Store K F) (e2 : Option Err),
+            (if w = true then (outOrNew out (finfo fi), none) else
+              startWriting (outOrNew out (finfo fi)) (finfo fi)) = (o2, e2) →
+            ∀ id ∈ o2.frames, ∃ o, out = some o ∧ id ∈ o.frames := by
+          intro o2 e2 h2 id hid
+          split_ifs at h2
+          · cases h2; exact hnew id hid
+          · have := frames_startWriting (outOrNew out (finfo fi)) (finfo fi) id
+              (by rw [h2]; exact hid)
+            exact hnew id this
+        cases hr2 : (if w = true then (outOrNew out (finfo fi), none) else
+              startWriting (outOrNew out (finfo fi)) (finfo fi)) with
+        | mk o2 e2 =>
+          rw [hr2] at h
+          cases e2 with
+          | some e =>
+            simp only at h
+            cases h
+            exact Or.inl (hstart _ _ hr2 id hid)
+          | none =>
+            simp only at h
+            cases hap : append o2 (finfo fi) (some t) nf with
+            | mk o3 e3 =>
+              rw [hap] at h
+              have h3 : ∀ id ∈ o3.frames, (∃ o, out = some o ∧ id ∈ o.frames) ∨ id = nf := by
+                intro id hid
+                rcases frames_append o2 (finfo fi) (some t) nf id (by rw [hap]; exact hid) with h4 | h4
+                · exact Or.inl (hstart _ _ hr2 id h4)
+                · exact Or.inr h4
+              cases e3 with
+              | some e =>
+                simp only at h
+                cases h
+                rcases h3 id hid with h4 | h4
+                · exact Or.inl h4
+                · exact Or.inr (by simp [h4])
+              | none =>
+                simp only at h
+                rcases ih (some o3) true o' h id hid with ⟨o, ho, hio⟩ | h5
+                · cases ho
+                  rcases h3 id hio with h4 | h4
+                  · exact Or.inl h4
+                  · exact Or.inr (by simp [h4])
+                · exact Or.inr (by simp only [List.map_cons, List.mem_cons]; exact Or.inr h5)
+
+end
+end natural
+
+/-! ### the world: aliasing, immutability of stored frames -/
+
+section world
+variable {K : Type} [Add K] [Mul K] [NatCast K] [LT K] [DecidableLT K]
+
+/-- the frames of all storages are private: they lie in the heap and none of them is the
+buffer of a live field.  Holds in the empty world and is preserved by every operation except
+`from_fields` (which aliases the given fields by design). -/
+def World.Inv (w : World K) : Prop :=
+  (∀ p ∈ w.fields, p.2 < w.heap.length) ∧
+  ∀ s ∈ w.stores, ∀ id ∈ s.frames, id < w.heap.length ∧ ∀ p ∈ w.fields, p.2 ≠ id
+
+/-- everything except `from_fields` and direct writes into `storage.data[i]` -/
+def Op.safe : Op K → Bool
+  | .fromFields _ _ _ => false
+  | .poke _ _ _ => false
+  | _ => true
+
+/-- the operations through which storage `sid` is written -/
+def Op.writesTo (sid : Nat) : Op K → Bool
+  | .setMode s _ => s == sid
+  | .start s _ => s == sid
+  | .append s _ _ => s == sid
+  | .clear s _ => s == sid
+  | .apply _ _ (some o) => o == sid
+  | _ => false
+
+/-- buffers that are not owned by a live field keep their content -/
+def HeapExt (w w' : World K) : Prop :=
+  w.heap.length ≤ w'.heap.length ∧
+  ∀ id, id < w.heap.length → (∀ p ∈ w.fields, p.2 ≠ id) → w'.deref id = w.deref id
+
+theorem deref_append (w : World K) (x : List (List K)) (id : Nat) (h : id < w.heap.length) :
+    ({ w with heap := w.heap ++ x } : World K).deref id = w.deref id := by
+  simp [World.deref, List.getD_eq_getElem?_getD, List.getElem?_append_left h]
+
+theorem heapExt_refl (w : World K) : HeapExt w w := ⟨le_refl _, fun _ _ _ => rfl⟩
+
+theorem heapExt_append (w w' : World K) (x : List (List K)) (h : w'.heap = w.heap ++ x) :
+    HeapExt w w' := by
+  refine ⟨by rw [h]; simp, ?_⟩
+  intro id hid _
+  simp [World.deref, h, List.getD_eq_getElem?_getD, List.getElem?_append_left hid]
+
+theorem heapExt_set (w w' : World K) (b : Nat) (v : List K) (h : w'.heap = w.heap.set b v)
+    (hb : ∃ p ∈ w.fields, p.2 = b) : HeapExt w w' := by
+  refine ⟨by rw [h]; simp, ?_⟩
+  intro id _ hne
+  obtain ⟨p, hp, rfl⟩ := hb
+  have : p.2 ≠ id := hne p hp
+  simp [World.deref, h, List.getD_eq_getElem?_getD, List.getElem?_set_ne this]
+
+theorem updStore_heap (w : World K) (sid : Nat) (f : Store K Nat → Store K Nat × Option Err) :
+    (updStore w sid f).1.heap = w.heap ∧ (updStore w sid f).1.fields = w.fields := by
+  unfold updStore
+  cases w.stores[sid]? with
+  | none => exact ⟨rfl, rfl⟩
+  | some s =>
+    simp only
+    cases hf : f s with
+    | mk s' e => cases e <;> exact ⟨rfl, rfl⟩
+
+theorem updStore_stores (w : World K) (sid : Nat) (f : Store K Nat → Store K Nat × Option Err) :
+    (updStore w sid f).1.stores =
+      match w.stores[sid]? with
+      | none => w.stores
+      | some s => w.stores.set sid (f s).1 := by
+  unfold updStore
+  cases w.stores[sid]? with
+  | none => rfl
+  | some s =>
+    simp only
+    cases hf : f s with
+    | mk s' e => cases e <;> rfl
+
+/-- every safe operation leaves the content of all buffers that are not owned by a live field
+untouched (it only allocates, or writes to the buffer of a live field) -/
+theorem heapExt_step (w : World K) (op : Op K) (hs : op.safe = true) : HeapExt w (step w op).1 := by
+  cases op with
+  | newField fi vals => exact heapExt_append _ _ [vals] rfl
+  | setField fid vals =>
+    simp only [step]
+    cases h : w.fields[fid]? with
+    | none => exact heapExt_refl w
+    | some p => exact heapExt_set _ _ p.2 vals rfl ⟨p, List.mem_of_getElem? h, rfl⟩
+  | newStore m => exact heapExt_append _ _ [] (by simp [step])
+  | setMode sid m => exact heapExt_append _ _ [] (by simp [step, updStore_heap])
+  | start sid fid =>
+    simp only [step]
+    cases h : w.fields[fid]? with
+    | none => exact heapExt_refl w
+    | some p => exact heapExt_append _ _ [] (by simp [updStore_heap])
+  | append sid fid t =>
+    simp only [step]
+    cases h : w.fields[fid]? with
+    | none => exact heapExt_refl w
+    | some p => exact heapExt_append _ _ [w.deref p.2] (by simp [updStore_heap])
+  | endW sid => exact heapExt_append _ _ [] (by simp [step, updStore_heap])
+  | clear sid b => exact heapExt_append _ _ [] (by simp [step, updStore_heap])
+  | read sid i =>
+    simp only [step]
+    cases w.stores[sid]? with
+    | none => exact heapExt_refl w
+    | some s =>
+      simp only
+      cases getField s i with
+      | error e => exact heapExt_refl w
+      | ok r => exact heapExt_append _ _ [w.deref r.2] rfl
+  | items sid =>
+    simp only [step]
+    cases w.stores[sid]? with
+    | none => exact heapExt_refl w
+    | some s => simp only; cases Storage.items s <;> exact heapExt_refl w
+  | slice sid a b =>
+    simp only [step]
+    cases w.stores[sid]? with
+    | none => exact heapExt_refl w
+    | some s => simp only; cases getSlice s a b <;> exact heapExt_refl w
+  | extractTimeRange sid r =>
+    simp only [step]
+    cases w.stores[sid]? with
+    | none => exact heapExt_refl w
+    | some s =>
+      simp only
+      cases Storage.extractTimeRange s r with
+      | error e => exact heapExt_refl w
+      | ok s' => exact heapExt_append _ _ [] (by simp)
+  | extractField sid fid label =>
+    simp only [step]
+    cases w.stores[sid]? with
+    | none => exact heapExt_refl w
+    | some s =>
+      simp only
+      cases extractFieldPlan s fid label with
+      | error e => exact heapExt_refl w
+      | ok r =>
+        obtain ⟨fi, i, tmpl⟩ := r
+        simp only
+        cases extractFieldBuild s tmpl _ with
+        | error e => exact heapExt_refl w
+        | ok s' => exact heapExt_append _ _ _ rfl
+  | viewRead sid fid k =>
+    simp only [step]
+    cases w.stores[sid]? with
+    | none => exact heapExt_refl w
+    | some s =>
+      simp only
+      cases viewCreate s fid with
+      | error e => exact heapExt_refl w
+      | ok fidx =>
+        simp only
+        cases viewGet s fidx k with
+        | error e => exact heapExt_refl w
+        | ok r =>
+          obtain ⟨fi, id, j, m⟩ := r
+          exact heapExt_append _ _ _ rfl
+  | viewItems sid fid =>
+    simp only [step]
+    cases w.stores[sid]? with
+    | none => exact heapExt_refl w
+    | some s =>
+      simp only
+      cases viewCreate s fid with
+      | error e => exact heapExt_refl w
+      | ok fidx =>
+        simp only
+        split <;> exact heapExt_refl w
+  | apply sid f out =>
+    simp only [step]
+    cases w.stores[sid]? with
+    | none => exact heapExt_refl w
+    | some s =>
+      simp only
+      split_ifs
+      · exact heapExt_refl w
+      · split
+        · exact heapExt_refl w
+        · split <;> exact heapExt_append _ _ _ rfl
+  | fromFields times fids m => simp [Op.safe] at hs
+  | poke sid i vals => simp [Op.safe] at hs
+
+/-- a frame id that may be stored: in the heap and not the buffer of a live field -/
+def World.Private (w : World K) (id : Nat) : Prop :=
+  id < w.heap.length ∧ ∀ p ∈ w.fields, p.2 ≠ id
+
+theorem inv_iff (w : World K) :
+    w.Inv ↔ (∀ p ∈ w.fields, p.2 < w.heap.length) ∧ ∀ s ∈ w.stores, ∀ id ∈ s.frames, w.Private id :=
+  Iff.rfl
+
+theorem private_heap_grow (w : World K) (x : List (List K)) (id : Nat) (h : w.Private id) :
+    ({ w with heap := w.heap ++ x } : World K).Private id :=
+  ⟨by simp only [List.length_append]; have := h.1; omega, h.2⟩
+
+theorem inv_heap_grow (w : World K) (x : List (List K)) (h : w.Inv) :
+    ({ w with heap := w.heap ++ x } : World K).Inv :=
+  ⟨fun p hp => by simp only [List.length_append]; have := h.1 p hp; omega,
+   fun s hs id hid => private_heap_grow w x id (h.2 s hs id hid)⟩
+
+theorem inv_set_store (w : World K) (sid : Nat) (s' : Store K Nat) (h : w.Inv)
+    (hs : ∀ id ∈ s'.frames, w.Private id) :
+    ({ w with stores := w.stores.set sid s' } : World K).Inv := by
+  refine ⟨h.1, ?_⟩
+  intro s hmem id hid
+  rcases List.mem_or_eq_of_mem_set hmem with h1 | h1
+  · exact h.2 s h1 id hid
+  · subst h1; exact hs id hid
+
+theorem inv_push_store (w : World K) (s' : Store K Nat) (h : w.Inv)
+    (hs : ∀ id ∈ s'.frames, w.Private id) :
+    ({ w with stores := w.stores ++ [s'] } : World K).Inv := by
+  refine ⟨h.1, ?_⟩
+  intro s hmem id hid
+  rcases List.mem_append.mp hmem with h1 | h1
+  · exact h.2 s h1 id hid
+  · simp at h1; subst h1; exact hs id hid
+
+theorem inv_push_field (w : World K) (fi : FieldInfo) (v : List K) (h : w.Inv) :
+    ({ w with heap := w.heap ++ [v], fields := w.fields ++ [(fi, w.heap.length)] } : World K).Inv := by
+  refine ⟨?_, ?_⟩
+  · intro p hp
+    simp only [List.length_append, List.length_cons, List.length_nil]
+    rcases List.mem_append.mp hp with h1 | h1
+    · have := h.1 p h1; omega
+    · simp at h1; subst h1; simp
+  · intro s hs id hid
+    obtain ⟨h1, h2⟩ := h.2 s hs id hid
+    refine ⟨by simp only [List.length_append]; omega, ?_⟩
+    intro p hp
+    rcases List.mem_append.mp hp with h3 | h3
+    · exact h2 p h3
+    · simp at h3; subst h3; simp; omega
+
+theorem private_fresh (w : World K) (x : List (List K)) (h : w.Inv) (id : Nat)
+    (hid : id ∈ List.range' w.heap.length x.length) :
+    ({ w with heap := w.heap ++ x } : World K).Private id := by
+  rw [List.mem_range'_1] at hid
+  refine ⟨by simp only [List.length_append]; omega, ?_⟩
+  intro p hp
+  have := h.1 p hp
+  omega
+
+theorem updStore_inv (w : World K) (sid : Nat) (f : Store K Nat → Store K Nat × Option Err)
+    (h : w.Inv) (hf : ∀ s ∈ w.stores, ∀ id ∈ (f s).1.frames, w.Private id) :
+    (updStore w sid f).1.Inv := by
+  have hst := updStore_stores w sid f
+  obtain ⟨hh, hfl⟩ := updStore_heap w sid f
+  cases hs : w.stores[sid]? with
+  | none =>
+    rw [hs] at hst
+    exact ⟨by rw [hfl, hh]; exact h.1, by rw [hst, hfl, hh]; exact h.2⟩
+  | some s =>
+    rw [hs] at hst
+    have := inv_set_store w sid (f s).1 h (hf s (List.mem_of_getElem? hs))
+    exact ⟨by rw [hfl, hh]; exact h.1, by rw [hst, hfl, hh]; exact this.2⟩
+
+/-- **the privacy invariant is preserved by every safe operation** -/
+theorem inv_step (w : World K) (op : Op K) (hs : op.safe = true) (h : w.Inv) : (step w op).1.Inv := by
+  cases op with
+  | newField fi vals => exact inv_push_field w fi vals h
+  | setField fid vals =>
+    simp only [step]
+    cases w.fields[fid]? with
+    | none => exact h
+    | some p =>
+      refine ⟨fun q hq => by simpa using h.1 q hq, fun s hs id hid => ?_⟩
+      have := h.2 s hs id hid
+      exact ⟨by simpa using this.1, this.2⟩
+  | newStore m => exact inv_push_store w _ h (by simp [Store.new])
+  | setMode sid m => exact updStore_inv w sid _ h (fun s hs id hid => h.2 s hs id hid)
+  | start sid fid =>
+    simp only [step]
+    cases w.fields[fid]? with
+    | none => exact h
+    | some p =>
+      exact updStore_inv w sid _ h (fun s hs id hid => h.2 s hs id (frames_startWriting s p.1 id hid))
+  | append sid fid t =>
+    simp only [step]
+    cases w.fields[fid]? with
+    | none => exact h
+    | some p =>
+      apply updStore_inv _ sid _ (inv_heap_grow w [w.deref p.2] h)
+      intro s hs id hid
+      rcases frames_append s p.1 t w.heap.length id hid with h1 | h1
+      · exact private_heap_grow w _ id (h.2 s hs id h1)
+      · subst h1; exact private_fresh w [w.deref p.2] h _ (by simp)
+  | endW sid => exact updStore_inv w sid _ h (fun s hs id hid => h.2 s hs id hid)
+  | clear sid b => exact updStore_inv w sid _ h (fun s hs id hid => by simp [clear] at hid)
+  | read sid i =>
+    simp only [step]
+    cases w.stores[sid]? with
+    | none => exact h
+    | some s =>
+      simp only
+      cases getField s i with
+      | error e => exact h
+      | ok r => exact inv_push_field w r.1 _ h
+  | items sid =>
+    simp only [step]
+    cases w.stores[sid]? with
+    | none => exact h
+    | some s => simp only; cases Storage.items s <;> exact h
+  | slice sid a b =>
+    simp only [step]
+    cases w.stores[sid]? with
+    | none => exact h
+    | some s => simp only; cases getSlice s a b <;> exact h
+  | extractTimeRange sid r =>
+    simp only [step]
+    cases hst : w.stores[sid]? with
+    | none => exact h
+    | some s =>
+      simp only
+      cases hr : Storage.extractTimeRange s r with
+      | error e => exact h
+      | ok s' =>
+        apply inv_push_store w s' h
+        intro id hid
+        apply h.2 s (List.mem_of_getElem? hst) id
+        unfold Storage.extractTimeRange at hr
+        simp only at hr
+        split at hr
+        · cases hr
+        · cases hr
+        · unfold construct at hr
+          split_ifs at hr
+          cases hr
+          exact List.mem_of_mem_drop (List.mem_of_mem_take hid)
+  | extractField sid fid label =>
+    simp only [step]
+    cases hst : w.stores[sid]? with
+    | none => exact h
+    | some s =>
+      simp only
+      cases extractFieldPlan s fid label with
+      | error e => exact h
+      | ok r =>
+        obtain ⟨fi, i, tmpl⟩ := r
+        simp only
+        cases hb : extractFieldBuild s tmpl _ with
+        | error e => exact h
+        | ok s' =>
+          apply inv_push_store _ s' (inv_heap_grow w _ h)
+          intro id hid
+          unfold extractFieldBuild construct at hb
+          split_ifs at hb
+          cases hb
+          exact private_fresh w _ h id (by simpa using hid)
+  | viewRead sid fid k =>
+    simp only [step]
+    cases w.stores[sid]? with
+    | none => exact h
+    | some s =>
+      simp only
+      cases viewCreate s fid with
+      | error e => exact h
+      | ok fidx =>
+        simp only
+        cases viewGet s fidx k with
+        | error e => exact h
+        | ok r =>
+          obtain ⟨fi, id, j, m⟩ := r
+          exact inv_push_field w _ _ h
+  | viewItems sid fid =>
+    simp only [step]
+    cases w.stores[sid]? with
+    | none => exact h
+    | some s =>
+      simp only
+      cases viewCreate s fid with
+      | error e => exact h
+      | ok fidx =>
+        simp only
+        split <;> exact h
+  | apply sid f out =>
+    simp only [step]
+    cases hst : w.stores[sid]? with
+    | none => exact h
+    | some s =>
+      simp only
+      split_ifs
+      · exact h
+      · split
+        · exact h
+        · rename_i outS houtS
+          -- frames of the resulting `out`: old frames of `out` or freshly allocated buffers
+          have hfr : ∀ o', (applyTo s f.info (List.range' w.heap.length
+                (applyNewVals w f s).length) outS).1 = some o' →
+              ∀ id ∈ o'.frames, ({ w with heap := w.heap ++ applyNewVals w f s } : World K).Private id := by
+            intro o' ho' id hid
+            unfold applyTo at ho'
+            have key := frames_applyLoop s f.info
+              ((List.range s.times.length).zip (List.range' w.heap.length
+                (applyNewVals w f s).length)) outS false
+            cases hl : applyLoop s f.info
+              ((List.range s.times.length).zip (List.range' w.heap.length
+                (applyNewVals w f s).length)) outS false with
+            | mk ol el =>
+              rw [hl] at ho' key
+              have hcase : ol = some o' ∨ (ol = none ∧ o' = Store.new .truncateOnce) := by
+                cases el with
+                | some e => simp only at ho'; exact Or.inl ho'
+                | none =>
+                  cases ol with
+                  | some o => simp only at ho'; exact Or.inl ho'
+                  | none => simp only at ho'; cases ho'; exact Or.inr ⟨rfl, rfl⟩
+              rcases hcase with h1 | ⟨_, h1⟩
+              · rcases key o' h1 id hid with ⟨o, ho, hio⟩ | h2
+                · subst ho
+                  cases out with
+                  | none => simp at houtS
+                  | some oid =>
+                    simp only at houtS
+                    cases hoid : w.stores[oid]? with
+                    | none => rw [hoid] at houtS; simp at houtS
+                    | some o0 =>
+                      rw [hoid] at houtS
+                      simp only [Option.map_some, Option.some.injEq] at houtS
+                      cases houtS
+                      exact private_heap_grow w _ id (h.2 o (List.mem_of_getElem? hoid) id hio)
+                · apply private_fresh w _ h id
+                  simp only [List.mem_map] at h2
+                  obtain ⟨q, hq, rfl⟩ := h2
+                  exact (List.of_mem_zip hq).2
+              · subst h1; simp [Store.new] at hid
+          split
+          · rename_i o heq _
+            exact inv_push_store _ o (inv_heap_grow w _ h) (hfr o (by rw [heq]))
+          · rename_i o oid heq _
+            exact inv_set_store _ oid o (inv_heap_grow w _ h) (hfr o (by rw [heq]))
+          · rename_i o e oid heq _
+            exact inv_set_store _ oid o (inv_heap_grow w _ h) (hfr o (by rw [heq]))
+          · exact inv_heap_grow w _ h
+          · exact inv_heap_grow w _ h
+  | fromFields times fids m => simp [Op.safe] at hs
+  | poke sid i vals => simp [Op.safe] at hs
+
+end world
+
 end store
 end PdeVerif.Storage
